@@ -112,6 +112,15 @@ CHECKS["C11"] = dict(
    note="Thread runner only (the property's quantifier); signals are modelled by calling stop_runner_loop(); backend-call granularity.",
    design="6/C11", technique=TECH + "; stop injection at every scheduling step of the real runner")
 
+CHECKS["C08"] = dict(
+   text=("Broker.tla model-checked (Fifo, EmptyYieldsNone, RouteAddsExactlyOne, CountIsRoutedMinusRetrieved). Every operation "
+         "sequence over {route a, route b, batch, retrieve, count, purge} up to length 5 (memory) / 4 (SQLite) plus long seeded "
+         "sequences run on both brokers; 2-3 concurrent routers / retrievers run on the SQLite broker under the deterministic "
+         "scheduler at SQL-statement granularity (DFS with a preemption bound + seeds); every log, in commit order, is validated "
+         "by TLC against the model queue (Fifo, ExactlyOnce, NeverLost, EmptyYieldsNone, CountIsRoutedMinusRetrieved)."),
+   note="A batch is a loop of single routings (each its own transaction) and is logged as such in concurrent runs.",
+   design="6/C08", technique=TECH)
+
 NOT_YET = {}
 
 def main() -> None:
